@@ -1,6 +1,8 @@
 package main
 
 import (
+	"strconv"
+	"os"
 	"go/ast"
 	"go/token"
 	"go/types"
@@ -54,6 +56,9 @@ func init() {
 			{ID: "C17.R7", Floor: 40, Doc: "guarded-field tables: Session, queryMetrics, routingKeyInfoLRU, debouncers, errorBroadcaster", Run: func(p *Program, r *Report) { checkGuardedFields(p, r, sessionGuards) }},
 			{ID: "C17.R8", Floor: 3, Doc: "stoppable services: work is accepted (a listener registered, a timer armed) only after testing the stopped flag under the same lock, and the stopping side releases what was registered", Run: c17r8},
 			{ID: "C17.R9", Floor: 2, Doc: "stop signals cannot be lost: a send on a service's stop channel either blocks until taken or goes into a buffered channel", Run: c17r9},
+			{ID: "C17.R10", Floor: 1, Doc: "goroutines and deferred closures started in a loop do not capture the loop's iteration variable (the module's go version gives it per-loop scope)", Run: c17r10},
+			{ID: "C17.R11", Floor: 2, Doc: "no blocking channel operation on an object's channel while holding that object's mutex when the goroutine on the other end takes the same mutex", Run: c17r11},
+			{ID: "C17.R12", Floor: 1, Doc: "the control connection that is being replaced is closed on every path", Run: c17r12},
 		},
 	})
 }
@@ -1189,4 +1194,267 @@ func c17r9(p *Program, r *Report) {
 	if n == 0 {
 		r.Unresolved("no send on a service stop channel found")
 	}
+}
+
+// goVersionBefore122: the go directive of the analysed module is below 1.22 (loop variables are shared by all
+// iterations).
+func goVersionBefore122(p *Program) (bool, string) {
+	data, err := os.ReadFile(p.RepoDir + "/go.mod")
+	if err != nil {
+		return true, "unknown"
+	}
+	for _, line := range strings.Split(string(data), "\n") {
+		f := strings.Fields(line)
+		if len(f) == 2 && f[0] == "go" {
+			parts := strings.Split(f[1], ".")
+			if len(parts) >= 2 {
+				maj, _ := strconv.Atoi(parts[0])
+				min, _ := strconv.Atoi(parts[1])
+				return maj < 1 || maj == 1 && min < 22, f[1]
+			}
+		}
+	}
+	return true, "unknown"
+}
+
+// c17r10: with a go directive below 1.22 the variables of a for / range clause exist once per loop. A function
+// literal that is started with go (or deferred) inside the loop and mentions such a variable sees the value of a
+// later iteration: every goroutine closes the last pool, the others stay open.
+func c17r10(p *Program, r *Report) {
+	before, ver := goVersionBefore122(p)
+	if !before {
+		r.OK(nil, "loop variables are per-iteration (go "+ver+")", "go directive >= 1.22")
+		return
+	}
+	n := 0
+	p.forEachFunc(false, func(fi *FuncInfo) {
+		if fi.Pkg != p.Root || fi.Decl.Body == nil {
+			return
+		}
+		info := fi.Pkg.TypesInfo
+		ast.Inspect(fi.Decl.Body, func(x ast.Node) bool {
+			var vars []types.Object
+			var body *ast.BlockStmt
+			switch l := x.(type) {
+			case *ast.RangeStmt:
+				if l.Tok != token.DEFINE {
+					return true
+				}
+				for _, e := range []ast.Expr{l.Key, l.Value} {
+					if id, ok := e.(*ast.Ident); ok && id.Name != "_" {
+						vars = append(vars, info.Defs[id])
+					}
+				}
+				body = l.Body
+			case *ast.ForStmt:
+				if as, ok := l.Init.(*ast.AssignStmt); ok && as.Tok == token.DEFINE {
+					for _, e := range as.Lhs {
+						if id, ok := e.(*ast.Ident); ok && id.Name != "_" {
+							vars = append(vars, info.Defs[id])
+						}
+					}
+				}
+				body = l.Body
+			default:
+				return true
+			}
+			if len(vars) == 0 || body == nil {
+				return true
+			}
+			ast.Inspect(body, func(y ast.Node) bool {
+				var call *ast.CallExpr
+				kind := ""
+				switch z := y.(type) {
+				case *ast.GoStmt:
+					call, kind = z.Call, "go"
+				case *ast.DeferStmt:
+					call, kind = z.Call, "defer"
+				default:
+					return true
+				}
+				lit, ok := ast.Unparen(call.Fun).(*ast.FuncLit)
+				if !ok {
+					return true
+				}
+				n++
+				captured := ""
+				ast.Inspect(lit.Body, func(w ast.Node) bool {
+					if id, ok := w.(*ast.Ident); ok {
+						for _, v := range vars {
+							if v != nil && info.Uses[id] == v {
+								captured = id.Name
+							}
+						}
+					}
+					return true
+				})
+				r.Check(captured == "", y, fi.Name+": closure started with "+kind+" at "+p.Pos(y)+" does not capture the loop variable", "the value is passed as an argument or copied first",
+					"the function literal started with `"+kind+"` inside the loop uses the loop variable `"+captured+"` (go "+ver+": one variable for all iterations): by the time it runs the variable holds a later element, so the work is done for the last element several times and never for the others")
+				return true
+			})
+			return true
+		})
+	})
+	if n == 0 {
+		r.OK(nil, "no closure is started with go / defer inside a loop", "census: 0")
+	}
+}
+
+// c17r11: stop() hands its signal to the service goroutine through an unbuffered channel. If the stopper still holds
+// the object's mutex while it blocks on that channel, and the service goroutine has to take the same mutex before it
+// gets back to its select, both wait for ever (Session.Close hangs).
+func c17r11(p *Program, r *Report) {
+	// channel fields -> functions that receive from them in a loop and lock a mutex of the same object
+	type peer struct {
+		fn *FuncInfo
+		mu string
+	}
+	recvLocks := map[*types.Var][]peer{}
+	p.forEachFunc(false, func(fi *FuncInfo) {
+		if fi.Pkg != p.Root || fi.Decl.Body == nil {
+			return
+		}
+		info := fi.Pkg.TypesInfo
+		locks := map[string]bool{}
+		for _, c := range callsIn(fi.Decl.Body) {
+			if kind, isMu := isMutexMethod(calleeName(info, c)); isMu && (kind == "Lock" || kind == "RLock") {
+				if rx := recvExpr(c); rx != nil {
+					if fv := fieldOf(info, rx); fv != nil {
+						locks[fv.Name()] = true
+					}
+				}
+			}
+		}
+		if len(locks) == 0 {
+			return
+		}
+		ast.Inspect(fi.Decl.Body, func(x ast.Node) bool {
+			fs, ok := x.(*ast.ForStmt)
+			if !ok {
+				return true
+			}
+			ast.Inspect(fs.Body, func(y ast.Node) bool {
+				if u, ok := y.(*ast.UnaryExpr); ok && u.Op == token.ARROW {
+					if fv := fieldOf(info, u.X); fv != nil {
+						for m := range locks {
+							recvLocks[fv] = append(recvLocks[fv], peer{fi, m})
+						}
+					}
+				}
+				return true
+			})
+			return true
+		})
+	})
+	n := 0
+	p.forEachFunc(false, func(fi *FuncInfo) {
+		if fi.Pkg != p.Root || fi.Decl.Body == nil {
+			return
+		}
+		info := fi.Pkg.TypesInfo
+		var g *Graph
+		var ls *Solution[strset]
+		inspectNoLit(fi.Decl.Body, func(x ast.Node) bool {
+			snd, ok := x.(*ast.SendStmt)
+			if !ok {
+				return true
+			}
+			fv := fieldOf(info, snd.Chan)
+			if fv == nil || len(recvLocks[fv]) == 0 {
+				return true
+			}
+			// a select with a default clause does not block
+			if cc, isCC := p.Parent(snd).(*ast.CommClause); isCC {
+				if blk, isB := p.Parent(cc).(*ast.BlockStmt); isB {
+					for _, cl := range blk.List {
+						if c2, ok := cl.(*ast.CommClause); ok && c2.Comm == nil {
+							return true
+						}
+					}
+				}
+			}
+			n++
+			if g == nil {
+				g = p.GraphOf(fi)
+				ls = g.Lockset()
+			}
+			held, _ := ls.Before(p.stmtOf(snd, fi))
+			root := ""
+			if sel, isSel := ast.Unparen(snd.Chan).(*ast.SelectorExpr); isSel {
+				root = exprStr(sel.X)
+			}
+			bad := ""
+			for l := range held {
+				m := strings.TrimPrefix(l, "R:")
+				for _, pr := range recvLocks[fv] {
+					if m == root+"."+pr.mu {
+						bad = m + " (taken by " + pr.fn.Name + " before it receives)"
+					}
+				}
+			}
+			r.Check(bad == "", snd, fi.Name+" does not hold the object's mutex while it blocks on "+exprStr(snd.Chan), "mutex released before the hand-shake",
+				fi.Name+" blocks on `"+exprStr(snd.Chan)+" <- ...` while holding "+bad+": when the receiving goroutine is woken for other work it blocks on that mutex and never reaches the receive, so both wait for ever")
+			return true
+		})
+	})
+	if n == 0 {
+		r.Unresolved("no blocking send to a service goroutine that also locks the object's mutex found")
+	}
+}
+
+// c17r12: when the control connection reconnects, the connection it had is closed whatever the new host list looks
+// like: on every path from attemptReconnect's entry to the reconnect attempt on which the old connection exists, its
+// Close has been called (a connection that is only closed when its host is still listed is leaked otherwise, and
+// Session.Close cannot reach it any more).
+func c17r12(p *Program, r *Report) {
+	fi := r.NeedFunc("(*controlConn).attemptReconnect")
+	if fi == nil {
+		return
+	}
+	g := p.GraphOf(fi)
+	info := g.Info
+	// the old connection: local bound to getConn()
+	old := ""
+	ast.Inspect(fi.Decl.Body, func(x ast.Node) bool {
+		if as, ok := x.(*ast.AssignStmt); ok && len(as.Lhs) == 1 && len(as.Rhs) == 1 {
+			if c, isC := ast.Unparen(as.Rhs[0]).(*ast.CallExpr); isC && isCallTo(info, c, "(*controlConn).getConn") {
+				old = exprStr(as.Lhs[0])
+			}
+		}
+		return true
+	})
+	var target *ast.CallExpr
+	for _, c := range callsIn(fi.Decl.Body) {
+		if isCallTo(info, c, "(*controlConn).attemptReconnectToAnyOfHosts") && target == nil {
+			target = c
+		}
+	}
+	if old == "" || target == nil {
+		r.Unresolved("attemptReconnect: old connection / reconnect attempt not found")
+		return
+	}
+	g.markNodes = map[ast.Node]string{}
+	ast.Inspect(fi.Decl.Body, func(x ast.Node) bool {
+		if c, ok := x.(*ast.CallExpr); ok && isCallTo(info, c, "(*Conn).Close") {
+			if rx := recvExpr(c); rx != nil && strings.HasPrefix(exprStr(rx), old+".") {
+				g.markNodes[p.stmtOf(c, fi)] = "closedOld"
+			}
+		}
+		return true
+	})
+	g.factsCache, g.factsPSCache = nil, nil
+	ps, ok := g.GuardFactsPSAbout(func(atom string) bool { return strings.HasPrefix(atom, "§") || mentions(atom, old) }).Before(p.stmtOf(target, fi))
+	g.markNodes = nil
+	g.factsCache, g.factsPSCache = nil, nil
+	okAll := ok && len(ps) > 0
+	for _, f := range ps {
+		if v, known := f.KnownStr(old + " == nil"); known && v {
+			continue // there was no old connection
+		}
+		if !f.m["§closedOld"] {
+			okAll = false
+		}
+	}
+	r.Check(okAll, target, "(*controlConn).attemptReconnect closes the connection it replaces on every path", old+".conn.Close() before the reconnect attempt wherever "+old+" != nil",
+		"a path reaches the reconnect attempt with the previous control connection still open (it is closed only under a condition on the host list): the old connection is replaced but never closed, and Session.Close cannot reach it")
 }
